@@ -30,12 +30,67 @@ func codecSelectors(p *core.Prog) []*ssa.Function {
 
 // selectorTable: media type → codec name, extracted from the returns.
 func selectorTable(fn *ssa.Function) (map[string]string, string) {
+	return selectorTableBound(fn, nil, 0)
+}
+
+// selectorTableBound: the table of fn with some of its parameters bound to
+// constants (a selector that delegates to a shared function of the package,
+// handing it its media-type constant and a flag, is evaluated through it).
+func selectorTableBound(fn *ssa.Function, bind map[*ssa.Parameter]ssa.Value, depth int) (map[string]string, string) {
 	tab := map[string]string{}
 	bad := ""
+	constOf := func(v ssa.Value) (string, bool) {
+		if s, ok := core.ConstString(v); ok {
+			return s, true
+		}
+		if par, ok := v.(*ssa.Parameter); ok && bind != nil {
+			if b, has := bind[par]; has {
+				return core.ConstString(b)
+			}
+		}
+		return "", false
+	}
 	for _, r := range core.Returns(fn) {
 		v := r.Results[0]
 		if core.IsNilConst(v) {
 			continue
+		}
+		// infeasible under the binding of a bool parameter?
+		infeasible := false
+		for _, ef := range core.DominatingFacts(r) {
+			if ef.Fact.Op == token.ILLEGAL {
+				if par, ok := ef.Fact.X.(*ssa.Parameter); ok && bind != nil {
+					if b, has := bind[par]; has {
+						if bv, isC := core.ConstBool(b); isC && bv == ef.Fact.Neg {
+							infeasible = true
+						}
+					}
+				}
+			}
+		}
+		if infeasible {
+			continue
+		}
+		// delegation to a shared selector of the package with constant arguments
+		if dc, _, isCall := core.CallResult(v); isCall && depth < 2 {
+			if h := dc.Call.StaticCallee(); h != nil && h.Blocks != nil && core.PkgIs(h, "httpgrpc") && core.TypeStr(h.Signature.Results().At(0).Type()) == "google.golang.org/grpc/encoding.Codec" {
+				b2 := map[*ssa.Parameter]ssa.Value{}
+				for i, pp := range h.Params {
+					if i < len(dc.Call.Args) {
+						if _, isConst := dc.Call.Args[i].(*ssa.Const); isConst {
+							b2[pp] = dc.Call.Args[i]
+						}
+					}
+				}
+				t2, bad2 := selectorTableBound(h, b2, depth+1)
+				for k, vv := range t2 {
+					tab[k] = vv
+				}
+				if bad2 != "" {
+					bad = bad2
+				}
+				continue
+			}
 		}
 		call, _, ok := core.CallResult(v)
 		if !ok || !core.InfoOf(&call.Call).Is("google.golang.org/grpc/encoding.GetCodec") {
@@ -51,10 +106,10 @@ func selectorTable(fn *ssa.Function) (map[string]string, string) {
 		media := ""
 		for _, ef := range core.DominatingFacts(r) {
 			if ef.Fact.Op == token.EQL {
-				if s, ok := core.ConstString(ef.Fact.Y); ok {
+				if s, ok := constOf(ef.Fact.Y); ok {
 					media = s
 				}
-				if s, ok := core.ConstString(ef.Fact.X); ok {
+				if s, ok := constOf(ef.Fact.X); ok {
 					media = s
 				}
 			}
@@ -317,9 +372,27 @@ func c11(c *core.Ctx) {
 			}
 			c.Check(sameTable(tab, want), key, s.Pos(), fmt.Sprintf("accepts exactly %v", tab), fmt.Sprintf("selector table is %v, want %v", tab, want))
 			// media type is the parsed main type of the parameter
-			okParse := len(core.CallsIn(s, func(call *ssa.Call, ci core.CallInfo) bool {
-				return ci.Is("mime.ParseMediaType") && call.Call.Args[0] == ssa.Value(s.Params[0])
-			})) == 1
+			var parses func(f *ssa.Function, pi int, depth int) bool
+			parses = func(f *ssa.Function, pi int, depth int) bool {
+				if len(core.CallsIn(f, func(call *ssa.Call, ci core.CallInfo) bool {
+					return ci.Is("mime.ParseMediaType") && call.Call.Args[0] == ssa.Value(f.Params[pi])
+				})) == 1 {
+					return true
+				}
+				// the selector hands its parameter to a shared selector of the package that parses it
+				if depth >= 2 {
+					return false
+				}
+				for _, hc := range core.CallsIn(f, func(_ *ssa.Call, ci core.CallInfo) bool { return ci.Static != nil && core.PkgIs(ci.Static, "httpgrpc") }) {
+					for ai, a := range hc.Call.Args {
+						if a == ssa.Value(f.Params[pi]) && ai < len(hc.Call.StaticCallee().Params) && parses(hc.Call.StaticCallee(), ai, depth+1) {
+							return true
+						}
+					}
+				}
+				return false
+			}
+			okParse := parses(s, 0, 0)
 			c.Check(okParse, core.FuncName(s)+":media-type-parsed", s.Pos(), "compares the parsed main media type (parameters ignored)", "the content type is not parsed with mime.ParseMediaType of the parameter")
 		}
 		// client constants
